@@ -1054,6 +1054,9 @@ func (p *scionPacketProcessor) processBFD(data []byte) disposition {
 		return errorDiscard("error", errNoBFDSessionFound)
 	}
 	bfd := &p.bfdLayer
+	// The layer is reused and DecodeFromBytes only assigns the optional
+	// authentication header; it never clears that of a previous packet.
+	bfd.AuthHeader = nil
 	if err := bfd.DecodeFromBytes(data, gopacket.NilDecodeFeedback); err != nil {
 		return errorDiscard("error", err)
 	}
